@@ -368,6 +368,46 @@ fn check(c: &Case) -> Outcome {
     o.comparisons(comparisons)
 }
 
+/// The socket and the ordered plugs of a case as built components (used by C19).
+pub fn materialise(c: &Case) -> Result<(BuiltComp, Vec<BuiltComp>), String> {
+    let mut lib = build_lib(&c.lib);
+    if lib.comps.len() < 2 {
+        return Err("too few components".into());
+    }
+    let si = (c.socket as usize * lib.comps.len()) >> 16;
+    let rest: Vec<usize> = (0..lib.comps.len()).filter(|i| *i != si).collect();
+    let mut plug_idx: Vec<usize> = vec![];
+    for p in &c.plugs {
+        let i = rest[(*p as usize * rest.len()) >> 16];
+        if !plug_idx.contains(&i) {
+            plug_idx.push(i);
+        }
+    }
+    if plug_idx.is_empty() {
+        plug_idx.push(rest[0]);
+    }
+    let socket_sigs: Vec<(String, FuncSig)> = lib.comps[si].items.iter().filter_map(|i| if let WorldItem::ImportFunc(n, s) = i { Some((n.clone(), s.clone())) } else { None }).collect();
+    for (k, i) in plug_idx.iter().enumerate() {
+        let mirror = c.mirror.get(k).copied().unwrap_or(false);
+        for it in lib.comps[*i].items.iter_mut() {
+            if let WorldItem::ExportFunc(n, sig) = it {
+                *n = n.replacen('g', "f", 1);
+                if mirror {
+                    if let Some((_, s)) = socket_sigs.iter().find(|(m, _)| m == n) {
+                        *sig = s.clone();
+                    }
+                }
+            }
+        }
+    }
+    let comps = build_library_with(&lib, (c.lib.versions / 8) % 2 == 0)?;
+    Ok((comps[si].clone(), plug_idx.iter().map(|i| comps[*i].clone()).collect()))
+}
+
+pub fn case_strategy() -> impl Strategy<Value = Case> {
+    (lib2(), any::<u16>(), proptest::collection::vec(any::<u16>(), 1..5), proptest::collection::vec(any::<bool>(), 4)).prop_map(|(lib, socket, plugs, mirror)| Case { lib, socket, plugs, mirror })
+}
+
 fn lib2() -> impl Strategy<Value = LibSpec> {
     (proptest::collection::vec(ifacespec_strategy(6), 1..4), any::<u8>(), proptest::collection::vec(compspec_strategy(), 2..6)).prop_map(|(ifaces, versions, comps)| LibSpec { api: ApiSpec { ifaces }, versions, comps })
 }
